@@ -57,7 +57,7 @@ fn c09_q_parents_n4() {
 #[kani::proof]
 #[kani::unwind(8)]
 #[kani::stub(alloc::fmt::format, crate::vklib::empty_format)]
-fn c09_t_parents_n6() {
+fn c09_q_parents_n6() {
     check_parents::<6>();
 }
 
